@@ -369,7 +369,7 @@ def gen_fixed():
                       ['list-pop', 'names'], ['set-plain', 'lags', 3], ['set-plain', 'leads', 2], ['span-mutate'],
                       ['alias', 'w', 'Y'], ['trace', 1, False], ['trace', 2, True], ['solve', True], ['solve', False],
                       ['inplace', ['var', 0], 1, 9], ['add_variable', ['new', 'Q'], {'scalar': 1}, None],
-                      ['add_attribute', 'extra', 1], ['strict', True], ['setattr', ['var', 1], {'scalar': 7}],
+                      ['add_attribute', 'extra', 1], ['add_attribute', 's', 1], ['add_attribute', 'models', [1]], ['strict', True], ['setattr', ['var', 1], {'scalar': 7}],
                       ['sub', 0, ['inplace', ['var', 0], 1, 9]], ['sub', 1, ['list-append', 'check', 'Q']],
                       ['sub', 0, ['solve', False]], ['sub-structure', 'pop'], ['sub-structure', 'add']]
         for kind in KINDS:
@@ -380,7 +380,8 @@ def gen_fixed():
                         yield {'mode': 'sibling', 'kind': kind, 'span': desc, 'post': [op], 'shared_inputs': True}
                     for route in range(3):
                         for side in ('copy', 'orig'):
-                            for pre in ([], [['solve', True]], [['solve', False], ['add_variable', ['new', 'W'], {'scalar': 2}, None]]):
+                            for pre in ([], [['solve', True]], [['solve', False], ['add_variable', ['new', 'W'], {'scalar': 2}, None]],
+                                        [['add_attribute', 'sub', 3], ['add_attribute', 'e', {'s': 'v'}]]):
                                 yield {'mode': 'copy', 'kind': kind, 'span': desc, 'pre': pre, 'route': route, 'side': side, 'post': [op]}
                             if op[0] in ('inplace', 'solve', 'setattr'):
                                 yield {'mode': 'copy', 'kind': kind, 'span': desc, 'pre': [], 'route': route, 'side': side,
